@@ -484,9 +484,21 @@ def canonical(st: dict) -> dict:
             b.pop("addr", None)
         for g in sec.get("gaps", []):
             g.pop("u", None)
-        # zero-sized blocks at one position have no order among themselves
-        sec["blocks"].sort(key=lambda b: (b["p"], b["n"] != 0,
-                                          json.dumps(b, sort_keys=True) if b["n"] == 0 else ""))
+        # The IR defines no order among zero-sized blocks at one position (nor which of
+        # them is "the next block"): they are compared as one block carrying all their
+        # labels, functions, entries and annotations.
+        merged = []
+        for b in sec["blocks"]:
+            if (merged and b["n"] == 0 and merged[-1]["n"] == 0 and merged[-1]["p"] == b["p"]
+                    and merged[-1]["k"] == b["k"]):
+                m = merged[-1]
+                for key in ("ss", "es", "fn", "ent"):
+                    m[key] = sorted(set(m.get(key, [])) | set(b.get(key, [])))
+                for key in ("ann", "cfi", "sx"):
+                    m[key] = sorted(m.get(key, []) + b.get(key, []), key=lambda x: json.dumps(x, sort_keys=True))
+            else:
+                merged.append(b)
+        sec["blocks"] = merged
     c.pop("whole", None)
     return c
 
